@@ -237,3 +237,11 @@ also("C10", "lock pairing (may-held analysis per function)", "Also decides that 
 also("C11", "writer/reader agreement on the stored encoding", "Also decides that what the uploader stores under a manifest-listed name is in the encoding the reader parses.")
 also("C14", "guard rule on the shared repository list", "Also decides that the primary repository joins the list of repositories only where the list was empty, so one repository is not submitted to twice.")
 also("C17", "freshness of the returned object on every path", "Also decides that the derived policy is an object made in the call on every returning path, never the caller's base.")
+# seed round 18
+also("C01", "who-may-recover rule", "Also decides that a recovered panic is handed on as an error, so a validator cannot return nil because something inside it panicked.")
+also("C07", "length rule on constant bounds of computed slices (with exact-length helper postconditions)", "Also decides that constant slice bounds on call results and field values are taken only with the length established.")
+also("C11", "no unguarded deferred storage writes", "Also decides that no storage write runs from a deferred call on failure paths.")
+also("C13", "representation agreement of digest keys", "Also decides that digest keys compared in the manifest merge are in one representation.")
+also("C15", "must-pass-through rule on the technology guards of measurement-only mode", "Also decides that a measurement-only run looks at every technology section before it returns.")
+also("C16", "who-may-manufacture rule on report measurements", "Also decides that the extraction library never makes up a measurement of the real size.")
+also("C19", "provenance rule on returned storage (sync.Pool), T24/T25 over the parser", "Also decides that evaluation results do not alias pooled storage.")
